@@ -19,11 +19,13 @@ NSHARDS = 16
 
 def shard_args(tier, seed):
     u, k, h = BUDGET[tier]
-    return [{"universes": max(1, u // NSHARDS), "sids": k, "hsteps": h, "seed": seed * 1000 + i} for i in range(NSHARDS)]
+    return [{"universes": max(1, u // NSHARDS), "sids": k, "hsteps": h, "seed": seed * 1000 + i, "dataconf_variant": i % 4 == 2} for i in range(NSHARDS)]
 
 
 def envs(snap, shard_args_list):
-    return [snap.env(conf_dir=snap.conf_copy("w%d" % i)) for i in range(len(shard_args_list))]
+    # every fourth shard runs under a second data configuration (Finders / Getters created once per path configuration)
+    from lib import dataconf_variant
+    return dataconf_variant.envs(snap, shard_args_list)
 
 
 def floors(m, tier):
